@@ -1,18 +1,24 @@
-(* C12: the REGENERATED method bodies (Gen/SafeKVCode.v, dumped from mapz/safekv.go on every run) do what the hand-written
-   specification [sem] says, for every argument and every map.  The scripts do not mention the shape of a body beyond
-   "straight-line code with lookups" (and one loop over the variadic parameter for Delete). *)
-From Coq Require Import List Arith ZArith Bool.
+(* C12: the REGENERATED method bodies (Gen/SafeKVCode*.v, dumped from mapz/safekv.go + iter.go on every run) do what the
+   hand-written specification [sem] says, for every argument and every map.  The scripts do not mention the shape of a body
+   beyond "straight-line code with lookups", "one loop over the variadic parameter" (Delete), "one loop over the map that
+   appends" (Keys, Values), "one loop over the map that calls back and may break" (Range, All). *)
+From Coq Require Import List Arith ZArith Bool Lia.
 From V Require Import Lib.Enc Lib.MapLang Gen.SafeKVCode Model.SafeKV Model.SafeKVCode Proofs.SafeKVExec.
 Import ListNotations.
 
+Lemma if_same {A} (c : bool) (x : A) : (if c then x else x) = x.
+Proof. destruct c; reflexivity. Qed.
+
+Ltac cb_ := cbn [exec eval m_body run_state stopped upd_me clear_brk s_ret s_map s_env s_sl s_brk s_n s_log env_set env_set_opt sl_set
+                 Nat.eqb nth map zb fold_left fst snd app no_mcb map_cb
+                 code_Get code_Has code_Contains code_Set code_SetNx code_SetX code_Delete code_Len code_Clear code_Keys code_Values
+                 code_GetWithLock code_Map code_Range code_All].
 Ltac code_run :=
-  intros; unfold run_method, sem, has;
-  cbn [exec eval m_body s_ret s_map s_env s_sl env_set env_set_opt sl_set Nat.eqb nth map zb fold_left
-       code_Get code_Has code_Contains code_Set code_SetNx code_SetX code_Delete code_Len code_Clear code_Keys code_Values];
+  intros; unfold run_method, run_cb, sem, has; cb_;
   repeat match goal with
          | |- context [get ?m ?k] => destruct (get m k) eqn:?
          end;
-  cbn [exec eval m_body s_ret s_map s_env s_sl env_set env_set_opt sl_set Nat.eqb nth map zb fold_left Z.eqb];
+  cb_; cbn [Z.eqb]; cb_;
   try reflexivity.
 
 Lemma code_Get_ok k m : run_method code_Get [k] [] m = sem (CGet k) m.
@@ -32,6 +38,15 @@ Proof. code_run. Qed.
 Lemma code_Clear_ok m : run_method code_Clear [] [] m = sem CClear m.
 Proof. code_run. Qed.
 
+(* the callback methods without a loop: any scalar callback for GetWithLock (its answer is not used), the model's map
+   callback for Map *)
+Lemma code_GetWithLock_ok cb k m :
+  let '(m', n, lg) := run_cb cb no_mcb code_GetWithLock [k] m in (m', lock_enc n lg) = sem (CGetWithLock k) m.
+Proof. code_run. Qed.
+Lemma code_Map_ok cb f a b m :
+  let '(m', n, lg) := run_cb cb (map_cb f a b) code_Map [] m in (m', lg) = sem (CMap f a b) m.
+Proof. code_run. Qed.
+
 (* Delete: the loop over the variadic parameter deletes key after key, whatever the locals hold (also when the body first
    asks whether the key is there) *)
 Lemma del_absent m k : get m k = None -> del m k = m.
@@ -39,33 +54,34 @@ Proof.
   induction m as [|[a b] t IH]; cbn; intros H. reflexivity.
   destruct (a =? k)%Z. discriminate. rewrite IH by assumption. reflexivity.
 Qed.
-Lemma delete_loop ks : forall m e l,
-  let st := exec [] ks (m_body code_Delete) {| s_map := m; s_env := e; s_sl := l; s_ret := None |} in
+Lemma delete_loop cb mcb ks : forall m,
+  let st := run_state cb mcb [] ks code_Delete m in
   s_map st = fold_left del ks m /\ s_ret st = None.
 Proof.
-  cbn [exec m_body code_Delete s_ret s_map s_env s_sl].
-  induction ks as [|k ks IH]; intros m e l.
+  unfold run_state. cb_. intros m. rewrite ?if_same. cb_.
+  generalize (fun _ : nat => 0%Z) as e. generalize (fun _ : nat => @nil Z) as l. generalize O as n. generalize (@nil Z) as lg.
+  revert m. induction ks as [|k ks IH]; intros m lg n l e.
   - cbn. split; reflexivity.
-  - cbn [fold_left exec eval s_ret s_map s_env s_sl env_set env_set_opt Nat.eqb].
+  - cb_.
     repeat match goal with
            | |- context [get ?m ?k] => destruct (get m k) eqn:?
            end;
-    cbn [fold_left exec eval s_ret s_map s_env s_sl env_set env_set_opt Nat.eqb Z.eqb];
+    cb_; cbn [Z.eqb]; cb_;
     rewrite ?del_absent by assumption; apply IH.
 Qed.
 Lemma code_Delete_ok ks m : run_method code_Delete [] ks m = sem (CDelete ks) m.
 Proof.
-  unfold run_method, sem. destruct (delete_loop ks m (fun _ => 0%Z) (fun _ => [])) as [Hm Hr]. cbv zeta in Hm, Hr.
-  rewrite Hm, Hr. reflexivity.
+  unfold run_method, sem. destruct (delete_loop (fun _ _ => 1%Z) no_mcb ks m) as [Hm Hr]. cbv zeta in Hm, Hr.
+  fold no_mcb. rewrite Hm, Hr. reflexivity.
 Qed.
 
 (* Keys, Values: a loop over the map whose body appends one component of the pair to slice x and leaves the map alone
    collects that component of every pair, in the model's order *)
 Lemma range_acc (F : cstate -> Z * Z -> cstate) (x : nat) (f : Z * Z -> Z) :
-  (forall st kv, s_ret st = None ->
-     s_map (F st kv) = s_map st /\ s_ret (F st kv) = None /\ s_sl (F st kv) x = s_sl st x ++ [f kv]) ->
-  forall l st, s_ret st = None ->
-     s_map (fold_left F l st) = s_map st /\ s_ret (fold_left F l st) = None /\ s_sl (fold_left F l st) x = s_sl st x ++ map f l.
+  (forall st kv, stopped st = false ->
+     s_map (F st kv) = s_map st /\ stopped (F st kv) = false /\ s_sl (F st kv) x = s_sl st x ++ [f kv]) ->
+  forall l st, stopped st = false ->
+     s_map (fold_left F l st) = s_map st /\ stopped (fold_left F l st) = false /\ s_sl (fold_left F l st) x = s_sl st x ++ map f l.
 Proof.
   intros H. induction l as [|kv l IH]; intros st Hr; cbn [fold_left map].
   - rewrite app_nil_r. auto.
@@ -74,28 +90,88 @@ Proof.
 Qed.
 Fixpoint ret_slice (s : stmt) : nat :=
   match s with SSeq a b => ret_slice a + ret_slice b | SReturnSlice x => x | _ => 0 end.
+Ltac open_state Hs :=
+  unfold stopped in Hs; cbn [s_ret s_brk] in Hs;
+  match type of Hs with context [match ?r with _ => _ end] => destruct r; [discriminate Hs|] end; subst.
 Ltac range_run md f :=
-  intros; unfold run_method; cbn [m_body md];
+  intros; unfold run_method, run_state; cbn [m_body md];
   let x := eval cbv in (ret_slice (m_body md)) in
-  cbn [exec eval m_body s_ret s_map s_env s_sl env_set env_set_opt sl_set Nat.eqb fold_left];
+  cb_;
   match goal with
   | |- context [fold_left ?F ?m ?st] =>
       let P := fresh "P" in
-      assert (P : s_map (fold_left F m st) = s_map st /\ s_ret (fold_left F m st) = None /\
+      assert (P : s_map (fold_left F m st) = s_map st /\ stopped (fold_left F m st) = false /\
                   s_sl (fold_left F m st) x = s_sl st x ++ map f m)
         by (apply (range_acc F x f);
-            [ intros [mm ee ll rr] [k v] Hr; cbn [s_ret] in Hr; subst rr;
-              cbn [exec eval m_body s_ret s_map s_env s_sl env_set env_set_opt sl_set Nat.eqb fst snd]; auto
+            [ intros [mm ee ll rr bb nn lg] [k v] Hs; open_state Hs; cb_; auto
             | reflexivity ]);
-      destruct (fold_left F m st) as [mm ee ll rr]; cbn [s_map s_ret s_sl sl_set Nat.eqb] in P;
-      destruct P as (-> & -> & P);
-  cbn [exec eval m_body s_ret s_map s_env s_sl env_set env_set_opt sl_set Nat.eqb]; rewrite ?P; cbn [app]
+      destruct (fold_left F m st) as [mm ee ll rr bb nn lg]; cbn [s_map s_ret s_sl sl_set Nat.eqb] in P;
+      let Hs := fresh "Hs" in destruct P as (-> & Hs & P); open_state Hs;
+      cb_; rewrite ?P; cbn [app]
   end.
 
 Lemma code_Keys_ok m : run_method code_Keys [] [] m = sem CKeys m.
 Proof. range_run code_Keys (@fst Z Z). reflexivity. Qed.
 Lemma code_Values_ok m : let '(m', r) := run_method code_Values [] [] m in (m', sort_out r) = sem CValues m.
 Proof. range_run code_Values (@snd Z Z). cbn [sem sort_out]. unfold put_list. rewrite zsort_length. reflexivity. Qed.
+
+(* Range, All: a loop over the map that hands every pair to the callback and breaks when the callback of the model
+   ([stop_cb stop]: false on its stop-th call, never for stop = 0) answers false *)
+Lemma iter_acc (F : cstate -> Z * Z -> cstate) (stop : nat) :
+  (forall st kv, stopped st = false ->
+     s_map (F st kv) = s_map st /\ s_ret (F st kv) = None /\ s_n (F st kv) = S (s_n st) /\
+     s_log (F st kv) = s_log st ++ [fst kv; snd kv] /\
+     s_brk (F st kv) = match stop with O => false | _ => Nat.eqb (S (s_n st)) stop end) ->
+  (forall st kv, stopped st = true -> F st kv = st) ->
+  forall l st, s_ret st = None ->
+    s_map (fold_left F l st) = s_map st /\ s_ret (fold_left F l st) = None /\
+    (stop = 0 -> s_brk st = false -> s_log (fold_left F l st) = s_log st ++ flat l) /\
+    (stop <> 0 -> (s_brk st = true -> s_n (fold_left F l st) = s_n st) /\
+                  (s_brk st = false -> s_n st < stop -> s_n (fold_left F l st) = Nat.min stop (s_n st + length l))).
+Proof.
+  intros H H2. induction l as [|kv l IH]; intros st Hr; cbn [fold_left length].
+  - unfold flat. cbn. rewrite app_nil_r. repeat split; auto. intros. lia.
+  - destruct (s_brk st) eqn:Hb.
+    + rewrite (H2 st kv) by (unfold stopped; rewrite Hr; exact Hb).
+      destruct (IH st Hr) as (A & B & C & D). rewrite Hb in *. repeat split; auto; try discriminate.
+      intros. apply D; auto.
+    + assert (Hs : stopped st = false) by (unfold stopped; rewrite Hr; exact Hb).
+      destruct (H st kv Hs) as (Hm & Hr' & Hn & Hl & Hbk).
+      destruct (IH (F st kv) Hr') as (A & B & C & D).
+      rewrite A, B, Hm. repeat split; auto; try discriminate.
+      * intros -> _. rewrite C by (try reflexivity; exact Hbk). rewrite Hl. unfold flat. cbn [flat_map].
+        rewrite <- app_assoc. reflexivity.
+      * intros _ Hlt. destruct (D H0) as [D1 D2]. rewrite Hbk in *. destruct stop as [|s']; [contradiction|].
+        destruct (Nat.eqb (S (s_n st)) (S s')) eqn:E.
+        -- rewrite D1 by reflexivity. rewrite Hn. apply Nat.eqb_eq in E. lia.
+        -- rewrite D2 by (try reflexivity; apply Nat.eqb_neq in E; lia). rewrite Hn. lia.
+Qed.
+Ltac iter_run md stop :=
+  intros; unfold run_cb, run_state; cbn [m_body md]; cb_;
+  match goal with
+  | |- context [fold_left ?F ?m ?st] =>
+      let P := fresh "P" in
+      pose proof (iter_acc F stop) as P;
+      specialize (P ltac:(intros [mm ee ll rr bb nn lg] [k v] Hs; open_state Hs; cb_; unfold stop_cb;
+                          destruct stop as [|s']; cb_; cbn [Z.eqb]; cb_; [auto 10|];
+                          match goal with |- context [Nat.eqb ?x ?y] => destruct (Nat.eqb x y) end; cb_; cbn [negb zb Z.eqb]; cb_; rewrite ?if_same; cb_; auto 10));
+      specialize (P ltac:(intros [mm ee ll rr bb nn lg] kv0 Hs; unfold stopped in Hs; cbn [s_ret s_brk] in Hs; cb_;
+                          destruct rr; [reflexivity | subst bb; reflexivity]) m st eq_refl);
+      destruct (fold_left F m st) as [mm ee ll rr bb nn lg]; cb_; cbn [s_map s_ret s_n s_log s_brk] in P;
+      let P0 := fresh "P0" in let P1 := fresh "P1" in let P2 := fresh "P2" in
+      destruct P as (-> & -> & P0 & P1);
+      cb_; rewrite ?if_same; cb_; unfold iter_enc, sem, iter_result;
+      destruct stop as [|s'];
+      [ rewrite P0 by reflexivity; reflexivity
+      | destruct (P1 ltac:(discriminate)) as [_ P2]; rewrite P2 by (try reflexivity; lia); rewrite Nat.add_0_l; reflexivity ]
+  end.
+
+Lemma code_Range_ok stop m :
+  let '(m', n, lg) := run_cb (stop_cb stop) no_mcb code_Range [] m in (m', iter_enc stop n lg) = sem (CRange stop) m.
+Proof. iter_run code_Range stop. Qed.
+Lemma code_All_ok stop m :
+  let '(m', n, lg) := run_cb (stop_cb stop) no_mcb code_All [] m in (m', iter_enc stop n lg) = sem (CAll stop) m.
+Proof. iter_run code_All stop. Qed.
 
 Theorem code_is_sem c m r : code_effect c m = Some r -> r = sem c m.
 Proof.
@@ -124,10 +200,15 @@ Theorem code_is_model :
   (forall m, run_method code_Clear [] [] m = sem CClear m) /\
   (forall m, run_method code_Keys [] [] m = sem CKeys m) /\
   (forall m, let '(m', r) := run_method code_Values [] [] m in (m', sort_out r) = sem CValues m) /\
+  (forall cb k m, let '(m', n, lg) := run_cb cb no_mcb code_GetWithLock [k] m in (m', lock_enc n lg) = sem (CGetWithLock k) m) /\
+  (forall cb f a b m, let '(m', n, lg) := run_cb cb (map_cb f a b) code_Map [] m in (m', lg) = sem (CMap f a b) m) /\
+  (forall stop m, let '(m', n, lg) := run_cb (stop_cb stop) no_mcb code_Range [] m in (m', iter_enc stop n lg) = sem (CRange stop) m) /\
+  (forall stop m, let '(m', n, lg) := run_cb (stop_cb stop) no_mcb code_All [] m in (m', iter_enc stop n lg) = sem (CAll stop) m) /\
   (forall c m, translated c = true -> code_effect c m = Some (sem c m) /\ code_effect c m = exec_call c m).
 Proof.
   repeat split; try (intros; first [apply code_Get_ok | apply code_Has_ok | apply code_Contains_ok | apply code_Set_ok
-    | apply code_SetNx_ok | apply code_SetX_ok | apply code_Delete_ok | apply code_Len_ok | apply code_Clear_ok | apply code_Keys_ok | apply code_Values_ok]).
+    | apply code_SetNx_ok | apply code_SetX_ok | apply code_Delete_ok | apply code_Len_ok | apply code_Clear_ok | apply code_Keys_ok
+    | apply code_Values_ok | apply code_GetWithLock_ok | apply code_Map_ok | apply code_Range_ok | apply code_All_ok]).
   - destruct (code_effect c m) as [r|] eqn:E.
     + rewrite (code_is_sem c m r E). reflexivity.
     + unfold code_effect, translated in *. destruct (code_of c) as [[[? ?] ?]|]; discriminate.
@@ -136,7 +217,7 @@ Proof.
     + unfold code_effect, translated in *. destruct (code_of c) as [[[? ?] ?]|]; discriminate.
 Qed.
 
-(* which calls are covered *)
+(* which calls have an exact equation through code_effect *)
 Lemma translated_calls c : translated c = true <->
   match c with
   | CGet _ | CSet _ _ | CSetNx _ _ | CSetX _ _ | CDelete _ | CHas _ | CContains _ | CLen | CClear | CKeys => True
